@@ -415,7 +415,19 @@ func c10IsolationCase(out *workerOut, r *Rand, idx int, root, tier string) {
 		for _, f := range files {
 			abs = append(abs, filepath.Join(root, f))
 		}
-		l, err := actionlint.NewLinter(io.Discard, &actionlint.LinterOptions{WorkingDir: cwd})
+		// log output: the per-file goroutines of LintFiles all write to the caller's LogWriter; a writer
+		// without synchronisation of its own (like bytes.Buffer) lets the race detector see unserialised writes
+		lopts := &actionlint.LinterOptions{WorkingDir: cwd}
+		logw := &c10PlainLog{}
+		switch (v + idx) % 3 {
+		case 1:
+			lopts.Verbose, lopts.LogWriter = true, logw
+			out.count("multi_runs_with_verbose_log", 1)
+		case 2:
+			lopts.Debug, lopts.LogWriter = true, logw
+			out.count("multi_runs_with_debug_log", 1)
+		}
+		l, err := actionlint.NewLinter(io.Discard, lopts)
 		if err != nil {
 			runtime.GOMAXPROCS(prev)
 			return
@@ -784,6 +796,9 @@ func runC10(r *Run) {
 	if r.SetLen("check_begin_orders") < 10 {
 		r.Inconclusive("too few distinct file start orders observed")
 	}
+	if r.Counter("multi_runs_with_verbose_log") < 50 || r.Counter("multi_runs_with_debug_log") < 50 {
+		r.Inconclusive("too few multi-file runs wrote verbose / debug logs to an unsynchronised LogWriter")
+	}
 	for _, t := range []string{"git-file", "git-file-nested-inner", "symlinked-callee", "symlinked-action"} {
 		if r.Counter("layout_trait_"+t) == 0 {
 			r.Inconclusive("no layout with the trait " + t + " was generated")
@@ -795,4 +810,16 @@ func runC10(r *Run) {
 	if r.Counter("tasks_under_race_build") == 0 {
 		r.Inconclusive("no workload ran under the race detector")
 	}
+}
+
+// c10PlainLog is a LogWriter without synchronisation of its own (what bytes.Buffer is).
+type c10PlainLog struct {
+	n    int
+	last []byte
+}
+
+func (w *c10PlainLog) Write(p []byte) (int, error) {
+	w.n += len(p)
+	w.last = append(w.last[:0], p...)
+	return len(p), nil
 }
